@@ -161,7 +161,7 @@ ROUND8 = {
  "C15": "Content handed over as a bytearray; the concrete sweep covers lengths around multiples of 64 KiB.",
  "C17": "The first group message (two envelopes) of a reinstalled member under auto-trust.",
  "C18": "Interface lookup with a layer class and a subclass of it in one stack; empty payloads.",
- "C19": "Binary values whose first or last byte is a whitespace character.",
+ "C19": "Binary values whose first or last byte is a whitespace character; a save that moves its file into place from a temporary directory on another file system (the move is a copy, every step a crash point).",
  "C20": "The environment selected by name over three selections.",
 }
 
